@@ -49,12 +49,49 @@ def shards(tier, quick_len=4, thorough_len=6, quick_random=350, thorough_random=
     # slot written twice) x fate of the value x framing, over two harmless globals
     out += [{"kind": "cells", "tier": tier, "part": i, "nparts": 8} for i in range(8)]
     # one attribute name in two modules, every global dead before the next one is resolved
+    out += [{"kind": "dupkeys"}]
     out += [{"kind": "rebinding", "part": i, "nparts": 4, "k": 3 if tier == "quick" else 4} for i in range(4)]
     per = quick_random if tier == "quick" else thorough_random
     out += [{"kind": "random", "n": per, "idx": i} for i in range(16)]
     pern = quick_natural if tier == "quick" else thorough_natural
     out += [{"kind": "natural", "n": pern, "idx": i} for i in range(8)]
     return out
+
+
+def dupkey_programs():
+    """hand-written container builders whose items collide or are out of order (equal keys in one
+    DICT / SETITEMS / SETITEM run, equal set elements), handed to every call-making opcode and to
+    BUILD: the VM keeps the last value of a key, and so must the program"""
+    import struct
+
+    K = lambda n: b"K" + bytes([n])  # noqa: E731
+    S = lambda t: b"S'" + t.encode() + b"'\n"  # noqa: E731
+    T, F0 = b"\x88", b"G" + struct.pack(">d", 0.0)
+    pair_sets = (
+        [(K(1), S("a")), (K(1), S("b"))], [(K(1), S("a")), (T, S("b"))], [(T, S("a")), (K(1), S("b")), (K(2), S("c"))],
+        [(S("a"), K(1)), (S("a"), K(2)), (S("b"), K(3))], [(K(0), S("x")), (F0, S("y"))], [(K(2), S("a")), (K(1), S("b"))],
+        [(K(3), S("a")), (K(1), S("b")), (K(3), S("c")), (K(2), S("d"))],
+    )
+    for pairs in pair_sets:
+        flat = b"".join(k + v for k, v in pairs)
+        builders = {
+            "DICT": b"(" + flat + b"d",
+            "SETITEMS": b"}(" + flat + b"u",
+            "SETITEM": b"}" + b"".join(k + v + b"s" for k, v in pairs),
+            "DICT+SETITEMS": b"(" + flat + b"d(" + b"".join(k + v for k, v in reversed(pairs)) + b"u",
+        }
+        for bname, d in builders.items():
+            contexts = {
+                "REDUCE": b"cverif_sink\nsink\n(" + d + b"tR.",
+                "OBJ": b"(cverif_sink\nsink\n" + d + b"o.",
+                "INST": b"(" + d + b"iverif_sink\nsink\n.",
+                "NEWOBJ": b"\x80\x02cverif_objs\nNewArgs\n(" + d + b"t\x81.",
+                "BUILD": b"cverif_objs\nPlain\n)R" + (b"(" + b"".join(S("k%d" % i) + v for i, (_, v) in enumerate(pairs))
+                                                      + S("k0") + K(9) + b"d") + b"b.",
+                "nested": b"cverif_sink\nsink\n(]" + d + b"a" + d + b"tR.",
+            }
+            for cname, data in contexts.items():
+                yield (bname, cname), data
 
 
 def rebinding_program(seq):
@@ -143,6 +180,16 @@ def run_shard(spec, seed, judge, nt_prog, nt_bytes, focus=None, full=None):
                 break
         res.exhaustive = True
         res.extra["product_cells"] = n
+    elif spec["kind"] == "dupkeys":
+        n = 0
+        for tag, data in dupkey_programs():
+            f, klass = judge(data, None)
+            n += 1
+            res.note(None, True, klass=[klass, "dupkeys"], sample={"dupkeys": list(tag), "hex": data.hex()})
+            if f is not None:
+                res.failures.append(f)
+                break
+        res.extra["dupkey_programs"] = n
     elif spec["kind"] == "rebinding":
         import itertools
 
